@@ -16,6 +16,7 @@ import implutil as U
 
 STATIC = ["Model/Bins.vo"]
 IMPORTS = "From SSP Require Import Model.Bins."
+EXTRA_PROPS = ["C13b"]
 Stub = namedtuple("StubIFMR", "WD_mf BH_mf NS_mf WD_mi BH_mi")
 B2 = namedtuple("bounds", "lower upper")
 
